@@ -9,21 +9,39 @@ from props import _mempool as M
 LEVEL = "proof"
 HARNESSES = [("h_mempool", "asan"), ("h_vsm", "rel")]
 ASSUMPTIONS = [
-    "callers submit a payload only while it is not connected in the mempool (they test isKnown first, as the "
-    "integrations do); re-submitting a connected payload is exercised, its two observable deviations (duplicate entry "
-    "inside one VBK relation; connected AND in flight until the next cleanUp) are counted, not reported",
+    "caller contract of submit (Coq: `contract`): a payload is submitted only while it is not connected in the mempool "
+    "(callers test isKnown first). Re-submitting a connected payload IS exercised on the implementation; its two "
+    "observable deviations on the unchanged tree are tolerated and counted in the evidence (notes): "
+    "`duplicate-entries-in-relation` (rel.vtbs is a vector, rel.atvs falls back on the shared_ptr address) and "
+    "`resubmitted-connected-now-both` (connected AND in flight until the next cleanUp)",
+    "a VbkBlock waiting in flight may at the same time be the header of a relation once an ATV/VTB carrying it "
+    "connects (getOrPutVbkRelation ignores the in-flight blocks; tryConnectPayloads handles VbkBlocks before the "
+    "VTBs/ATVs that may carry their parents, so such a block needs a second pass): tolerated and counted "
+    "(`vbk-header-connected-while-in-flight`); the 'connected by the next pass' oracle only demands payloads whose "
+    "VBK context is reachable through VbkBlock payloads / the trees and whose BTC context is already present",
     "memory safety is observed by ASan/UBSan (-O0 build of the library) on the generated histories, not proved",
 ]
 META = {
-    "text": "Theorems (Coq, all operation sequences): the ValueSortedMap model (multiset as the ordered list libstdc++ "
-            "maintains + association list) keeps set and map in step; abstract pool invariants (partition, views agree, "
-            "removed stay removed, one height-ordered pass connects everything connectable, erase-while-iterating "
-            "never touches a freed node). Tie to the code: extracted model vs the real ValueSortedMap on exhaustive op "
-            "sequences, and a direct consistency oracle over all mempool views after every step of generated "
-            "histories on the ASan/UBSan build.",
+    "text": "Theorems (Coq, all operation sequences, closed under the global context): C13_vsm_refines_map - the "
+            "ValueSortedMap model as coded now (multiset as the ordered list libstdc++ maintains, findInSet over the "
+            "equal range, association list) never fires an assertion and keeps set and map in step for every "
+            "comparator; C13_vsm_v0_refuted - the pre-913f84f9 erase does not. Abstract pool with all tree verdicts as "
+            "step inputs: C13_partition (connected XOR in flight, no assertion, under the caller contract), "
+            "C13_views_agree, C13_removed_stay_removed, C13_never_lost, C13_inflight_eventually_connected (one "
+            "height-ordered pass leaves in flight only what fails the contextual check or lacks its context block), "
+            "C13_erase_while_iterating_safe / C13_cleanup_v0_uaf_refuted (iteration over a live container with an "
+            "explicit Uaf outcome). Tie to the code: extracted Vsm model vs the real ValueSortedMap (two "
+            "instantiations) on ALL op sequences up to length 4 (quick) / 5 (thorough) over 16 ops with three "
+            "comparator-equal values, and the direct consistency oracle over all mempool views after EVERY line of "
+            "generated histories, run on the un-instrumented and on the ASan/UBSan (-O0) build.",
     "note": "Trusted: Coq kernel, extraction, OCaml driver, C++ harness (reads private members of MemPool through "
-            "`#define private public` in its own translation unit only). Memory safety is observed, not proved.",
-    "technique": "Coq proof (invariants over op sequences) + extraction-based differential correspondence + sanitizer run",
+            "`#define private public` in its own translation unit only), World interpreter, the recording/preloading "
+            "of VBK header hashes between the un-instrumented and the sanitizer run (setProgpowHeaderCache; a miss is "
+            "a machinery error, never a verdict). The pool model is single-typed (one payload type, context = one "
+            "parent block) and is NOT run against the implementation step by step; the pool-level tie is the direct "
+            "oracle. Memory safety is observed, not proved.",
+    "technique": "Coq proof (invariants over op sequences) + extraction-based differential correspondence (exhaustive) "
+                 "+ direct oracle on generated histories under ASan/UBSan",
 }
 
 CFGS = [
@@ -108,9 +126,12 @@ def histories(ctx, pid, path, n_hist, n_steps, cls, cfgs, budget_s, hashfile=Non
                     H.on("set", a)
                 for _ in range(n_steps):
                     H.step()
-                    if [f for f in g.fails if not f[2].startswith("F10 ")]:
+                    # stop at the first oracle failure; also at the first F10 hit: the premature finalization leaves
+                    # the loaded tree in a state the library itself trips over later (appliedBlockCount assertion in
+                    # setState, dangling endorsement pointers), which is a consequence of the known finding
+                    if g.fails:
                         break
-                if not [f for f in g.fails if not f[2].startswith("F10 ")] and pid == "C12":
+                if not g.fails and pid == "C12":
                     H.gen(True)
             except M.Desync as d:
                 ctx.broken.append("machinery: generator/registry desync: %s" % d)
@@ -211,7 +232,7 @@ def run(ctx):
         pass
     nc = run_corpus(ctx, "C13", runner, "asan")
     if ctx.tier == "quick":
-        n_hist, n_steps, budget, abudget = 8, 45, 40, 70
+        n_hist, n_steps, budget, abudget = 12, 45, 40, 70
     else:
         n_hist, n_steps, budget, abudget = 80, 90, 400, 1200
     hashfile = os.path.join(ctx.work, "hashes.txt")
